@@ -130,6 +130,20 @@ Lemma stash_cancel_one : forall o, o_stash (cancel_one o) = o_stash o.
 Proof. intros. unfold cancel_one. destruct (o_completed o); reflexivity. Qed.
 #[global] Hint Resolve stash_set_completed stash_set_cb stash_inc_calls stash_set_cancelreq stash_set_timer stash_stop_timer stash_cancel_one : c16.
 
+Lemma filter_length_split : forall (f : nat -> bool) l,
+  (length (filter f l) + length (filter (fun x => negb (f x)) l) = length l)%nat.
+Proof. induction l as [|y t IH]; simpl; auto. destruct (f y); simpl; lia. Qed.
+
+Lemma nstash_filter_split : forall ob (f : nat -> bool) t,
+  (nstash ob (filter f t) + nstash ob (filter (fun x => negb (f x)) t) = nstash ob t)%nat.
+Proof. induction t as [|y t IH]; simpl; auto. destruct (f y); simpl; lia. Qed.
+
+Section Policy.
+(* [z]: whether cancelInFlightRequests zeroes the counters after its loop (see Model.v) *)
+Variable z : bool.
+Local Notation step := (Model.step z).
+Local Notation run := (Model.run z).
+
 Definition runfrom (s : st) (ops : list op) : st := fold_left step ops s.
 
 Definition reach (mx : Z) (s : st) : Prop := exists ops, s = run mx ops.
@@ -554,6 +568,11 @@ Proof.
   - destruct (ph s); auto.
   - (* OCancelInFlight *)
     intros Ht. simpl in *. apply orb_false_iff in Ht. destruct Ht as [Ht1 Ht2].
+    destruct z; simpl in Ht2; [|
+      destruct (HC Ht1) as [H1 H2]; unfold cancel_keep, cancel_objs;
+      rewrite nstash_mapi by (intros i o; destruct (mem i (table s)); auto with c16);
+      pose proof (filter_length_split (is_completed (objs s)) (table s));
+      pose proof (nstash_filter_split (objs s) (is_completed (objs s)) (table s)); split; lia].
     assert (K : cancel_keep (objs s) (table s) = []).
     { unfold cancel_keep. apply filter_none. intros x Hx. unfold is_completed.
       destruct (get (objs s) x) as [ox|] eqn:G; auto. destruct (o_completed ox) eqn:C; auto. exfalso.
@@ -606,7 +625,7 @@ Qed.
 Lemma lim_step : forall s o, LimInv s -> LimInv (step s o).
 Proof.
   intros s o HL. unfold LimInv. rewrite maxif_step. intros Hm. specialize (HL Hm).
-  destruct o; simpl; auto; try lia.
+  destruct o; simpl; auto; try (destruct z; lia).
   - destruct (ph s); auto.
   - destruct (ph s); auto.
   - destruct (get (objs s) r); auto. destruct (o_timer r0); auto.
@@ -874,7 +893,52 @@ Proof.
   destruct (is_stash (objs s) r); [destruct (blocking s - 1 =? 0)|]; simpl; auto.
 Qed.
 
+End Policy.
+
+(* ------------------------------------------------------------------ with the repair (no zeroing) nothing is ever tainted *)
+Lemma never_tainted : forall mx s, reach false mx s -> tainted s = false.
+Proof.
+  intros mx. apply reach_ind_inv; [reflexivity|]. intros s o IH.
+  destruct o; simpl; auto.
+  - destruct (ph s); auto.
+  - destruct (ph s); auto.
+  - destruct (get (objs s) r); auto. destruct (o_timer r0); auto.
+  - destruct (get (objs s) r); auto. destruct (o_completed r0 || o_cancelreq r0); auto.
+  - destruct (ph s); auto.
+  - rewrite IH. reflexivity.
+  - destruct (ph s); auto.
+  - destruct (ph s); auto.
+  - destruct (turn s); auto. destruct (mbox s) as [|m rest]; auto. destruct m.
+    + destruct (0 <? blocking s); auto.
+    + destruct (mem r (table s)); auto. destruct (get (objs s) r); auto. destruct (o_completed r0); auto.
+  - destruct (turn s) as [|r c k]; auto.
+    destruct (deregister_shape (with_turn s TIdle) r) as [[_ E]|(_ & _ & _ & _ & _ & _ & _ & E & _)]; destruct c; simpl; rewrite E; auto.
+  - destruct (turn s); auto.
+  - destruct (turn s); auto. destruct (ph s); auto. unfold register.
+    destruct ((0 <? maxif s) && (maxif s <=? inflight s)); auto.
+  - destruct (turn s); auto. destruct (get (objs s) r); auto. destruct (o_cb r0); auto. destruct (o_completed r0); auto.
+Qed.
+
+Theorem counters_exact_repaired : forall mx s, reach false mx s ->
+  inflight s = Z.of_nat (length (table s)) /\
+  blocking s = Z.of_nat (nstash (objs s) (table s)) /\
+  0 <= blocking s <= inflight s /\
+  (0 < mx -> inflight s <= mx) /\
+  (table s = [] -> inflight s = 0 /\ blocking s = 0) /\
+  NoDup (table s).
+Proof. intros mx s R. apply (counters_exact_partial false mx s R). eapply never_tainted; eauto. Qed.
+
+Theorem stash_mode_isolation_repaired : forall mx s, reach false mx s ->
+  forall o, handled (step false s o) <> handled s ->
+     o = ODispatch /\ nstash (objs s) (table s) = O /\
+     exists n rest, mbox s = MUser n :: rest /\ handled (step false s o) = handled s ++ [n].
+Proof.
+  intros mx s R. apply (stash_mode_isolation_partial false mx s R). eapply never_tainted; eauto.
+Qed.
+
 (* ------------------------------------------------------------------ refutations of the literal clauses (witness histories) *)
+Local Notation run := (Model.run true).
+Local Notation step := (Model.step true).
 
 (* cancelInFlightRequests (restartSubtree calls it on a running actor; doStop calls it off turn) between
    requestState.complete and deregisterRequestState of an on-turn completion: the counters are zeroed
@@ -924,11 +988,17 @@ Definition ex_ops : list op :=
 
 Example ex_reach_untainted :
   let s := run 2 ex_ops in
-  reach 2 s /\ tainted s = false /\ overtaken s = false /\ table s = [O] /\ inflight s = 1 /\ blocking s = 1 /\
+  reach true 2 s /\ tainted s = false /\ overtaken s = false /\ table s = [O] /\ inflight s = 1 /\ blocking s = 1 /\
   stashq s = [MUser 1; MUser 2] /\ handled s = [O] /\
   option_map o_calls (get (objs s) 1) = Some 1%nat /\ option_map o_outcome (get (objs s) 1) = Some (Some KCancel).
 Proof. split; [exists ex_ops; reflexivity|]. vm_compute. repeat split. Qed.
 
 Example ex_reset_reachable :
-  let s := run 1 (w_taint ++ [OStop; OCancelInFlight]) in reach 1 s /\ ph s = PCancelled /\ tainted s = true.
+  let s := run 1 (w_taint ++ [OStop; OCancelInFlight]) in reach true 1 s /\ ph s = PCancelled /\ tainted s = true.
+Proof. split; [eexists; reflexivity|]. vm_compute. auto. Qed.
+
+(* the witness history of the refutations is harmless once the counters are no longer zeroed *)
+Example ex_repaired_witness :
+  let s := Model.run false 1 (w_taint ++ [ORequest true false; ORequest false false]) in
+  reach false 1 s /\ inflight s = 1 /\ blocking s = 1 /\ table s = [1%nat] /\ tainted s = false.
 Proof. split; [eexists; reflexivity|]. vm_compute. auto. Qed.
